@@ -1,3 +1,5 @@
+//go:build !passthrough
+
 package simrt
 
 // Tape is the record of every choice made during a run. In generate mode
